@@ -514,6 +514,14 @@ def _single_assign_env(fn: FunctionInfo) -> dict[str, ast.AST]:
                         counts[nm.id] = counts.get(nm.id, 0) + 1
                         if isinstance(t, ast.Name):
                             vals[nm.id] = n.value
+            for t in n.targets:
+                if isinstance(t, (ast.Tuple, ast.List)) and isinstance(n.value, (ast.Tuple, ast.List)) and len(t.elts) == len(n.value.elts):
+                    for te, ve in zip(t.elts, n.value.elts):
+                        if isinstance(te, ast.Name):
+                            vals[te.id] = ve
+        elif isinstance(n, ast.AnnAssign) and isinstance(n.target, ast.Name) and n.value is not None:
+            counts[n.target.id] = counts.get(n.target.id, 0) + 1
+            vals[n.target.id] = n.value
         elif isinstance(n, (ast.AugAssign, ast.AnnAssign)) and isinstance(n.target, ast.Name):
             counts[n.target.id] = counts.get(n.target.id, 0) + 2
         elif isinstance(n, (ast.For, ast.comprehension)):
